@@ -282,6 +282,17 @@ Fixpoint block_skips (off : nat) (bs : list blk) : list skip :=
 
 End Spec.
 
+(* the text at merge_file after the action, when the localization file decodes
+   to [contents] (what the comparison parsed) and the codec encodes what it
+   decoded; None: nothing staged or the reference copied *)
+Definition staged_text (contents : str) (a : action) : option str :=
+  match a with
+  | CopyL10n => Some contents
+  | Write t => Some t
+  | CopyL10nAppend t => Some (contents ++ t)
+  | NoFile | DirOnly | CopyRef => None
+  end.
+
 (* capabilities of a registered parser class, from the generated dispatch table *)
 Fixpoint caps_of_class (name : str) (tbl : list (str * str * N)) : option N :=
   match tbl with
